@@ -21,6 +21,8 @@ def run(chk):
         ubm, s = fa.gen_ubm(r)
         C, D = ubm.means.shape
         rU, rV = r.choice([1, 2]), r.choice([1, 2])
+        if i % 7 == 3:
+            rV = C * D          # as many speaker factors as supervector entries: y and z have the same length (nothing may be inferred from lengths)
         m = fa.make_machine(kind, ubm, rU, rV, r=r, dscale=r.choice([0.3, 1.0]))
         g = gen.nprng(r)
         z = g.normal(size=C * D)
@@ -62,6 +64,26 @@ def run(chk):
         s_sum = float(m.score(model, [pooled]))
         if not abs(s_sum - score) <= tol:
             chk.fail("scoring a probe given as several statistics (%.12g) differs from scoring their sum (%.12g)" % (score, s_sum), ctx)
+        # the array-level training entry point on a Dask array with the clients' sessions INTERLEAVED (0,1,2,0,1,2): same model as training on
+        # the UBM statistics of the same sessions (list input), hence the same scores
+        if i % 8 == 5:
+            import dask.array as da_
+            g8 = gen.nprng(r)
+            S8, F8 = 6, 3
+            X8 = np.asarray(ubm.means)[g8.integers(0, C, size=(S8, F8))] + g8.normal(size=(S8, F8, D)) * np.sqrt(np.asarray(ubm.variances).mean())
+            y8 = np.array([0, 1, 2, 0, 1, 2])
+            ma_ = fa.make_machine(kind, ubm, rU, rV, em_iterations=1, random_state=3)
+            mb_ = fa.make_machine(kind, ubm, rU, rV, em_iterations=1, random_state=3)
+            try:
+                ma_.fit_using_array(da_.from_array(X8, chunks=((2, 4), (F8,), (D,))), y8)
+                mb_.fit([ubm.acc_stats(x_) for x_ in X8], y8)
+                chk.count(1, key=("fit_using_array, Dask, interleaved labels", kind))
+                badm = [nm_ for nm_ in ("U", "D") + (("V",) if kind == "jfa" else ()) if not np.allclose(np.asarray(getattr(ma_, nm_)), np.asarray(getattr(mb_, nm_)), rtol=1e-7, atol=1e-9)]
+                if badm:
+                    chk.fail("%s.fit_using_array on a Dask array with interleaved client labels %s gives another %s than fit on the UBM statistics of the same sessions"
+                             % (kind.upper(), y8.tolist(), badm), dict(ctx, X=hexlist(X8), labels=y8.tolist()))
+            except Exception as e:
+                chk.fail("%s.fit_using_array on a Dask array with interleaved client labels raises %r" % (kind.upper(), e), dict(ctx, X=hexlist(X8), labels=y8.tolist()))
         # score, train the SAME machine object further, score again: the second score is that of a fresh machine holding the trained U, V, D
         if i % 5 == 2:
             import copy as _copy
